@@ -187,7 +187,7 @@ def _sk(j):
 def outcome(fn):
     """run fn(); -> {'ok': enc(result)} | {'exc': class name}"""
     try:
-        return {'ok': enc(call_with_timeout(fn, 10))}
+        return {'ok': enc(call_with_timeout(fn, 3))}
     except Exception as e:      # noqa
         return {'exc': type(e).__name__}
 
@@ -480,7 +480,7 @@ def _targets():
     add('UnusedVotesDistributor:depth2',
         lambda: vcore.UnusedVotesDistributor([vcore.ByConstituency(vprop.QuotaDistributor('hare')),
                                               vcore.ByConstituency(HA())], quota_functions=['hare'], depth=2),
-        lambda rng: call('evaluate', g_const(rng, lambda r: g_simple(r, frac=False)), g_seats(rng, 3),
+        lambda rng: call('evaluate', g_const(rng, lambda r: g_simple(r, frac=False)), D([(d, rng.randint(1, 3)) for d in DN]),
                          **({'prev_gains': g_nested_gains(rng)} if rng.random() < 0.6 else {})))
     add('AdjustedSeatCount', lambda: vcore.AdjustedSeatCount(vcore.AllowOverhang(HA()), HA()),
         lambda rng: call('evaluate', g_simple(rng, frac=False), rng.randint(2, 6), prev_gains=g_gains(rng, hi=3),
@@ -496,7 +496,7 @@ def _targets():
     add('PostConverted', lambda: vcore.PostConverted(vcore.Plurality(), vconv.SelectionToDistribution()), c_eval_simple_sel)
     add('PreConverted', lambda: vcore.PreConverted(vconv.RankedToFirstPreference(), vcore.Plurality()), c_eval_ranked_noshared)
     add('PreConverted:borda', lambda: vcore.PreConverted(vconv.RankedToPositionalVotes(vrs.Borda()), vcore.Plurality()),
-        c_eval_ranked_n)
+        c_eval_ranked_n, state_ok=('converter.rank_scorer',))
     add('Conditioned', lambda: vcore.Conditioned(vthr.RelativeThreshold(Fraction(1, 10)), HA()), c_eval_simple_dist)
     add('Conditioned:prevgain',
         lambda: vcore.Conditioned(vthr.AlternativeThresholds([vthr.RelativeThreshold(Fraction(1, 5)),
@@ -555,7 +555,8 @@ def _targets():
     add('QuotaSelector:select', lambda: vapp.QuotaSelector('hare', on_more_over_quota='select'), c_eval_simple_n)
     add('ScoreVoting', lambda: vcard.ScoreVoting(), c_eval_score_n)
     add('ScoreVoting:sum', lambda: vcard.ScoreVoting('sum', unscored_value=0), c_eval_score_n)
-    add('MajorityJudgment', lambda: vcard.MajorityJudgment(), c_eval_mj)
+    add('MajorityJudgment', lambda: vcard.MajorityJudgment(), c_eval_score_n)
+    add('MajorityJudgment:plus', lambda: vcard.MajorityJudgment(tie_breaking='plus'), c_eval_score_n)
     add('STAR', lambda: vcard.STAR(), c_eval_score_n)
     add('STAR:rp', lambda: vcard.STAR(runoff_evaluator='rankedpairs_winvotes'), c_eval_score_n)
     add('AllocatedScoreDistributor', lambda: vcard.AllocatedScoreDistributor(), c_eval_score_dist)
@@ -582,6 +583,8 @@ def _targets():
     add('TransferableVoteSelector.nth_count', lambda: vseq.TransferableVoteSelector(),
         lambda rng: call('nth_count', g_ranked(rng, shared=False), g_seats(rng, 2), rng.randint(1, 3)))
     add('TransferableVoteSelector.next_count', lambda: vseq.TransferableVoteSelector(), _c_next_count)
+    add('TransferableVoteDistributor.next_count', lambda: vseq.TransferableVoteDistributor(),
+        lambda rng: _c_next_count(rng, dist=True))
     add('PreferenceAddition', lambda: vseq.PreferenceAddition(), c_eval_ranked_n)
     add('PreferenceAddition:oklahoma', lambda: vseq.PreferenceAddition(lambda i: Fraction(1, i + 1)), c_eval_ranked_n)
     add('TidemanAlternative', lambda: vseq.TidemanAlternative(), c_eval_ranked_1)
@@ -647,7 +650,7 @@ def _targets():
     add('convert.ByConstituency:borda', lambda: vconv.ByConstituency(vconv.RankedToPositionalVotes(vrs.Borda())),
         c_conv(lambda r: g_const(r, g_ranked)), state_ok=('converter.rank_scorer',))
     add('InvalidVoteEliminator', lambda: vconv.InvalidVoteEliminator(vvote.RankedVoteValidator()),
-        c_conv(lambda r: g_ranked(r)))
+        c_conv(lambda r: g_ranked(r)), state_ok=('validator.rank_vote_count_checkers',))
     add('InvalidVoteEliminator:approval', lambda: vconv.InvalidVoteEliminator(vvote.ApprovalVoteValidator((1, 2))),
         c_conv(g_approval))
     add('RoundedVotes', lambda: vconv.RoundedVotes(0), c_conv(lambda r: g_simple(r)))
@@ -683,10 +686,8 @@ def _targets():
     add('PersonNominator', lambda: vcand.PersonNominator(), _c_nominate)
     # --- module-level singletons (shared object = the module's; fresh = a new instance of the same configuration)
     for key, obj in vcond.EVALUATORS.items():
-        cfg = {'rankedpairs_winvotes': vcond.RankedPairs, 'rankedpairs_margins': lambda: vcond.RankedPairs('margins'),
-               'minimax_winvotes': vcond.MinimaxCondorcet, 'minimax_margins': lambda: vcond.MinimaxCondorcet('margins'),
-               'minimax_pwo': lambda: vcond.MinimaxCondorcet('pairwise_opposition')}.get(key) or type(obj)
-        add(f'singleton:condorcet.EVALUATORS[{key}]', cfg,
+        pristine = copy.deepcopy(obj)       # taken before any call of this process reaches the singleton
+        add(f'singleton:condorcet.EVALUATORS[{key}]', (lambda p=pristine: copy.deepcopy(p)),
             c_eval_condorcet_n if accepts_n(obj) else c_eval_condorcet, shared=(lambda o=obj: o), singleton=True)
     add('singleton:sequential.DEFAULT_TRANSFERER', lambda: vtrans.Gregory(), _c_transfer,
         shared=lambda: vseq.DEFAULT_TRANSFERER, singleton=True)
@@ -700,7 +701,7 @@ def _targets():
     add('singleton:vote.DEFAULT_NOMINATOR', lambda: vcand.BasicNominator(), _c_nominate,
         shared=lambda: vvote.DEFAULT_NOMINATOR, singleton=True)
     add('singleton:convert.DEFAULT_MAPPER', lambda: vconv.IndividualToPartyVotes(vcand.IndividualToPartyMapper()),
-        c_conv(_g_person_votes), shared=lambda: vconv.IndividualToPartyVotes(vconv.DEFAULT_MAPPER), singleton=True)
+        c_conv(_g_person_votes), shared=lambda: vconv.IndividualToPartyVotes(), singleton=True)
     add('singleton:TidemanAlternative.default_set_selector', lambda: vcond.SmithSet(), c_eval_condorcet,
         shared=lambda: inspect.signature(vseq.TidemanAlternative.__init__).parameters['set_selector'].default, singleton=True)
     return Tt
@@ -812,10 +813,12 @@ def _c_transfer(rng):
     return call('transfer', alloc, L(rng.sample(cands, rng.randint(1, max(1, len(cands) - 1)))))
 
 
-def _c_next_count(rng):
+def _c_next_count(rng, dist=False):
     cands, alloc = _g_allocation(rng)
     total = sum(n for _, d in alloc['D'] for _, n in d['D'])
     a = [alloc, g_seats(rng, 2), total]
+    if dist:
+        return call('next_count', *a, **kw_prev_max(rng, {}, p=0.3))
     if rng.random() < 0.5:
         return call('next_count', *a)
     return call('next_count', *a, elected=L([]))
